@@ -25,7 +25,7 @@ var (
 	queryKeys  = []string{"p", "q", "r", "a0"}
 	tokVals    = []string{"1", "2", "x", "yy", "v9"}
 	statuses   = []int{200, 200, 204, 101, 199, 301, 304, 400, 404, 429, 499, 500, 500, 502, 503, 599}
-	counts     = []int{-1, 0, 1, 2, 3, 5}
+	counts     = []int{-1, 0, 1, 2, 3, 5, -2, -7} // every negative count means "without bound", at both levels
 	methods    = []string{"GET", "POST", "POST", "PUT", "PATCH", "DELETE", "HEAD", "OPTIONS"}
 	bodies     = []string{"hello", "{\"a\":1}", "<x>1</x>", "0123456789abcdef0123456789abcdef", "b"}
 )
@@ -268,6 +268,12 @@ func genProgram(r *hk.Rand) *program {
 		sh.DenyGetPay = true
 	}
 	sh.CloseConn = r.Chance(15)
+	switch k := r.Intn(100); { // configuration that must not change how often the caller's callbacks run
+	case k < 15:
+		sh.Debug = "debuglog"
+	case k < 25:
+		sh.Debug = "dumptrace"
+	}
 	na := 0
 	if r.Chance(30) {
 		na = r.Range(1, 2)
@@ -279,6 +285,7 @@ func genProgram(r *hk.Rand) *program {
 		}
 		p.After = append(p.After, a)
 	}
+	clientMutated := false
 	lateBodyOK := false
 	switch sh.BodyKind {
 	case "none", "bytes", "string", "marshal", "func": // bodies every attempt gets a reader of its own for
@@ -323,6 +330,13 @@ func genProgram(r *hk.Rand) *program {
 	}
 	// terminal outcome: the context is cancelled, which ends every loop
 	p.Script = append(p.Script, outcome{Kind: "ctxcancel"})
+	// another party using the shared client changes a client-level header while this call is
+	// between two attempts (a key the request inherited, one it set itself, or a new one)
+	if r.Chance(15) && len(p.Script) > 1 {
+		i := r.Intn(len(p.Script) - 1)
+		p.Script[i].ClientHdr = &[2]string{hk.Pick(r, hdrKeys[:4]), hk.Pick(r, []string{"other1", "other2"})}
+		clientMutated = true
+	}
 	// a client-level round-trip wrapper; it may answer an attempt with (nil, err) or hand back
 	// the response together with an error the response does not record
 	if r.Chance(40) {
@@ -358,7 +372,7 @@ func genProgram(r *hk.Rand) *program {
 			replayableUpload = false
 		}
 	}
-	if (sh.BodyKind != "multipart" || replayableUpload) && !p.unreplayable() && !mut && r.Chance(25) {
+	if (sh.BodyKind != "multipart" || replayableUpload) && !p.unreplayable() && !mut && !clientMutated && r.Chance(25) {
 		for i, n := 0, r.Range(1, 2); i < n; i++ {
 			re := reexecSpec{Via: hk.Pick(r, []string{"send", "do", "doplain"})}
 			for j, d := 0, r.Range(0, 4); j < d; j++ {
